@@ -5,7 +5,7 @@ Require Import Fggs.Model.GraphAPI Fggs.Proofs.GraphAPI_wf Fggs.Proofs.GraphAPI_
         Fggs.Proofs.GraphAPI_oracle Fggs.Proofs.GraphAPI_refuted.
 
 (** a factor graph with two nodes, a binary terminal edge and one external node; an FGG that uses
-    it as a right-hand side, with domains and a factor; a copy of the grammar; a failing call *)
+    it as a right-hand side, with domains and a factor; a copy of the grammar; raising calls *)
 Definition demo : list op :=
   [ NewFactorGraph; NewNode 0 0 (IdStr 0);
     NewEdge 0 0 [NVal (Node 0 (Explicit 0)); NFresh 1] true false IdNone;
@@ -14,7 +14,8 @@ Definition demo : list op :=
     NewFiniteDomain 1 0 [0; 1]; NewFiniteDomain 1 1 [0; 1; 2]; NewFiniteFactor 1 0 [2; 3] 1;
     Copy 1; EqOp 1 2; SetStart 2 (SName 1); EqOp 1 2;
     AddNode 0 (NVal (Node 2 (Explicit 0)));        (* raises: duplicate id *)
-    RemoveNode 0 (Node 0 (Explicit 0)) ].          (* raises: attached and external *)
+    RemoveNode 0 (Node 0 (Explicit 0));            (* raises: attached and external *)
+    AddEdge 0 (EL 3 [1] true) [NVal (Node 1 (Explicit 0))] (IdStr 1) ].   (* raises: id used by another node *)
 
 (** every call of [demo] satisfies the guard of the invariant theorem ... *)
 Example demo_guarded : all_guarded init demo = true.
@@ -27,7 +28,8 @@ Proof. split; [apply run_inv; [apply inv_init | exact demo_guarded] | vm_compute
 Example demo_results :
   map snd (fst (fold_left (fun (acc : list (op * result) * state) o =>
                              let (s', r) := step (snd acc) o in (fst acc ++ [(o, r)], s')) demo ([], init)))
-  = [ROk; ROk; ROk; ROk; ROk; ROk; ROk; ROk; ROk; ROk; RBool true; ROk; RBool false; RErr ValueErr; RErr ValueErr].
+  = [ROk; ROk; ROk; ROk; ROk; ROk; ROk; ROk; ROk; ROk; RBool true; ROk; RBool false;
+     RErr ValueErr; RErr ValueErr; RErr ValueErr].
 Proof. vm_compute. reflexivity. Qed.
 
 (** hypotheses of the step theorem at a non-initial state, for a call that mutates *)
@@ -37,27 +39,33 @@ Proof.
   split; [apply run_inv; [apply inv_init | vm_compute; reflexivity]|]. split; vm_compute; reflexivity.
 Qed.
 
-(** hypotheses of the atomicity theorem: a raising call that satisfies [atomic_ok] *)
-Example atomic_hyps : let s := run init (firstn 13 demo) in
-                      let o := AddNode 0 (NVal (Node 2 (Explicit 0))) in
-                      tabs_keyed s /\ atomic_ok s o = true /\ is_err (snd (step s o)) = true.
-Proof. split; [apply reachable_tabs_keyed|]. split; vm_compute; reflexivity. Qed.
+(** the guard is not vacuous on rhs graphs: a call on a graph used as a rhs that keeps its type passes *)
+Example guard_on_rhs : let s := run init (firstn 6 demo) in
+                       guard_wf s (SetExt 0 [NVal (Node 0 (Explicit 0))]) = true /\
+                       guard_wf s (SetExt 0 []) = false.
+Proof. split; vm_compute; reflexivity. Qed.
 
-(** a raising add_edge with a label clash that is atomic because its nodes are all present *)
-Example atomic_hyps_clash :
-  let s := run init [NewGraph; AddNode 0 (NVal ax); AddEdgeLabel 0 fB] in
+(** a raising call (the atomicity theorem has no other hypothesis) *)
+Example atomic_hyps : let s := run init (firstn 13 demo) in
+                      is_err (snd (step s (AddNode 0 (NVal (Node 2 (Explicit 0)))))) = true.
+Proof. vm_compute. reflexivity. Qed.
+
+(** a raising add_edge with a label clash and a missing node: nothing is left behind *)
+Example atomic_clash :
+  let s := run init [NewGraph; AddEdgeLabel 0 fB] in
   let o := AddEdge 0 fA [NVal ax] (IdStr 0) in
-  tabs_keyed s /\ atomic_ok s o = true /\ snd (step s o) = RErr ValueErr.
-Proof. split; [apply reachable_tabs_keyed|]. split; vm_compute; reflexivity. Qed.
+  snd (step s o) = RErr ValueErr /\ objs (fst (step s o)) = objs s.
+Proof. split; vm_compute; reflexivity. Qed.
 
 (** hypotheses of the copy theorems: a successful copy of a grammar with a rule in a state
     that satisfies the invariant *)
 Example copy_hyps : let s := run init (firstn 9 demo) in
-                    inv s /\ snd (step s (Copy 1)) = ROk /\ guard_wf s (Copy 1) = true.
+                    inv s /\ plain_ok s /\ snd (step s (Copy 1)) = ROk.
 Proof.
-  split; [apply run_inv; [apply inv_init | vm_compute; reflexivity]|]. split; vm_compute; reflexivity.
+  split; [apply run_inv; [apply inv_init | vm_compute; reflexivity]|].
+  split; [apply reachable_plain_ok | vm_compute; reflexivity].
 Qed.
 
-(** the oracle accepts a non-trivial family, and rejects the F11 state *)
+(** the oracle accepts a non-trivial family *)
 Example oracle_accepts : wf_b (observe (run init demo)) = true.
 Proof. apply inv_wf_b. apply demo_inv. Qed.
